@@ -7,10 +7,13 @@ HARNESSES = [
          files=[("pkg/ppp/zz_verif_c06_test.go", "harness/C06/zz_verif_c06_test.go")]),
     dict(name="sess", pkg="./internal/pppoe/", test="TestVerifC06Sess",
          files=[("internal/pppoe/zz_verif_c06_sess_test.go", "harness/C06/zz_verif_c06_sess_test.go")]),
+    dict(name="lns", pkg="./internal/l2tp/", test="TestVerifC06Lns",
+         files=[("internal/l2tp/zz_verif_c06_lns_test.go", "harness/C06/zz_verif_c06_lns_test.go")]),
 ]
 # repaired: the behaviour the theorems are proved for.  The others reproduce the recorded defects, one at a
 # time and all together, so that fixing one of them upstream does not turn the others into false alarms.
-VARIANTS = ["repaired", "defective", "def_auth", "def_adopt", "def_aaa"]
+VARIANTS = ["repaired", "defective", "def_auth", "def_adopt", "def_aaa",
+            "lns_adopt", "lns_aaa", "lns_always", "lns_found"]
 RULE = ("ipcp/lcp/v6: ProcessConfReq called directly; every option list of length <= 2 (quick) / 3 (thorough) over a "
         "structured alphabet (implemented + unknown types, data lengths 0,1,2,3,4,5,6,8,9,253, values assigned / zero / "
         "local / near-miss / other) against every configuration class (assigned nil / 4-byte / 16-byte mapped / 0.0.0.0 / "
@@ -25,15 +28,22 @@ RULE = ("ipcp/lcp/v6: ProcessConfReq called directly; every option list of lengt
         "Input(ConfReq) with serialized structured lists, random bytes, truncations, bad length bytes, trailing byte; "
         "emitted packets decoded by an independent decoder. sess: real SessionState (initPPP, extractIPFromAttributes, "
         "startNCP, onIPCPUp, re-authentication = both run again on the same session) with AAA address none / usable / 0.0.0.0 / IPv6 and random histories of subscriber "
-        "Configure-Requests and Configure-Ack/Nak/Reject answers to the BNG's own request (verbatim and forged); session address and ipcpOpen after every event. Non-trivial: at least "
+        "Configure-Requests and Configure-Ack/Nak/Reject answers to the BNG's own request (verbatim and forged); session address and ipcpOpen after every event. sess cases also fix the outcome of pool allocation / address reservation (a real one-address "
+        "allocator registry, free or held by another session) at start and at every re-authentication; lns: the same "
+        "histories against a real internal/l2tp Session (initSessionPPP, extractIPFromAttributes, startNCP, onIPCPUp). "
+        "Non-trivial: at least "
         "one option classified (direct), a packet emitted (fsm), IPCP reached Opened (sess). Distinct: by case text.")
 TRUSTED = ["bytes are modelled as N; the harness feeds 0..255 only",
            "the random IPv6CP Nak suggestion is projected to 'an 8-byte identifier different from the local one'",
            "net.ParseIP / net.IP.String round trip (AAA attribute string <-> 16-byte address) is not modelled",
            "FSM states are forced by writing FSM.state in the fsm cases (the automaton itself is property C05)"]
-ASSUMPTIONS = ["session cases run without an IP registry and without an allocation context (startNCP then uses the "
-               "AAA address or the 100.64.0.1 fall-back); pool allocation is property C01/C02",
-               "checkOpen is kept from programming the dataplane by running the session in the Authenticate phase"]
+ASSUMPTIONS = ["the allocator registry enters the session model as an oracle (allocation result, reservation verdict); "
+               "in sess/lns cases a real one-address registry produces exactly that outcome; which address a pool "
+               "hands out and when a reservation conflicts is property C01/C02",
+               "checkOpen / checkSessionOpen are kept from programming the dataplane by running the session in the "
+               "Authenticate phase",
+               "session histories consist of the subscriber's Configure-Request/Ack/Nak/Reject (matching identifier) and "
+               "re-authentications; Terminate, Code-Reject, timeouts, Down/Close are property C05"]
 
 ASSIGNED = "0a000005"
 MAPPED = "00000000000000000000ffff"
@@ -364,12 +374,25 @@ def gen_cases(rng, tier, budget):
             a0 = aaa[-8:]
             evs = ["q1." + wire([opt(3, a0)]), "k", "R" + MAPPED + "0a000009",
                    "q2." + wire(rng.choice([[], [opt(3, a0)], [opt(129, "08080808")], [opt(3, "0a000009")]])), "k"] + evs[:3]
-        cases.append("sess %s %s" % (aaa, " ".join(evs)))
+        # registry outcome for the first startNCP: with an AAA address its reservation may conflict, without
+        # one the pool allocation delivers an address, nothing, or is exhausted
+        start = aaa
+        if i % 4 == 1:
+            if aaa == "none":
+                al = rng.choice(["0a000007", "0a000007", "full", "none"])
+                start = "none/" + al
+            elif aaa not in bad_aaas:
+                start = aaa + "/none/" + rng.choice(["cf", "ok"])
+            evs = [(e + rng.choice(["", "", "/none/cf", "/0a000008"])) if e[0] == "R" else e for e in evs]
+        cases.append("sess %s %s" % (start, " ".join(evs)))
+        if i % 2 == 0:
+            # the same history against the LNS owner of the IPCP object (no reservation step there)
+            cases.append("lns %s %s" % (start.replace("/cf", "/ok"), " ".join(e.replace("/cf", "/ok") for e in evs)))
     return cases
 
 
 def route(case):
-    return "sess" if case.startswith("sess") else "ppp"
+    return "sess" if case.startswith("sess") else ("lns" if case.startswith("lns") else "ppp")
 
 
 # ---------------------------------------------------------------- reading output lines
@@ -570,7 +593,7 @@ def _monitor(case, impl, out):
                     for t, d in os:
                         if t != 1 or len(d) != 16 or d == "00" * 8 or d == f[2]:
                             hit("IPv6CP Configure-Ack carries %d.%s" % (t, d))
-        elif f[0] == "sess":
+        elif f[0] in ("sess", "lns"):
             parts = impl.split(" | ")
             seen_pa = set()
             pa = None
@@ -631,7 +654,15 @@ def classify(case, impl, model):
     KNOWN-FINDING).  A case that shows nothing but a recorded finding and differs elsewhere is glue."""
     vs = monitor_all(case, impl)
     rec = _recorded()
-    fresh = [t for t, c in vs if c is None or SIG_OF_CLASS[c] not in rec]
+    lns = case.startswith("lns")
+
+    def recorded(c):
+        if not lns:
+            return SIG_OF_CLASS[c] in rec
+        if c == "adopt":
+            return "lns-ipcp-up-adopts-nil-peer-address" in rec
+        return "lns-aaa-unusable-ipv4-kept" in rec or "lns-ipcp-started-without-assigned-address" in rec
+    fresh = [t for t, c in vs if c is None or not recorded(c)]
     if fresh:
         return "P", fresh[0] + " (impl=%r model=%r)" % (impl[:200], model[:200])
     extra = (" [also shows recorded finding: %s]" % vs[0][0]) if vs else ""
@@ -646,6 +677,16 @@ def signature(case, impl, models):
         return "ipcp-up-without-address-option-adopts-nil"
     if f[0] == "hl" and impl == models.get("def_auth"):
         return "lcp-acks-chap-with-unsupported-algorithm"
+    if f[0] == "lns":
+        if impl == models.get("lns_adopt"):
+            return "lns-ipcp-up-adopts-nil-peer-address"
+        if impl == models.get("lns_aaa"):
+            return "lns-aaa-unusable-ipv4-kept"
+        if impl == models.get("lns_always"):
+            return "lns-ipcp-started-without-assigned-address"
+        if impl == models.get("lns_found"):
+            return "lns-ipcp-combined"
+        return None
     if f[0] == "sess":
         if impl == models.get("def_adopt"):
             return "ipcp-up-without-address-option-adopts-nil"
@@ -709,7 +750,7 @@ def shrink(case):
             if len(b) <= 24:
                 for i in range(len(b)):
                     yield " ".join(f[:-1] + ["".join(b[:i] + b[i + 1:]) or "-"])
-    elif k == "sess":
+    elif k in ("sess", "lns"):
         evs = f[2:]
         for i in range(len(evs)):
             if len(evs) > 1:
@@ -717,7 +758,7 @@ def shrink(case):
 
 
 def distribution(cases, impl):
-    d = {"ipcp": 0, "lcp": 0, "v6": 0, "hi": 0, "hl": 0, "h6": 0, "history_ops": 0, "sess_reauth": 0, "fsm": 0, "sess": 0, "options_classified": 0, "acked": 0, "nakked": 0,
+    d = {"ipcp": 0, "lcp": 0, "v6": 0, "hi": 0, "hl": 0, "h6": 0, "history_ops": 0, "sess_reauth": 0, "fsm": 0, "sess": 0, "lns": 0, "sess_alloc": 0, "sess_conflict": 0, "options_classified": 0, "acked": 0, "nakked": 0,
          "rejected": 0, "fsm_sca": 0, "fsm_scn": 0, "fsm_scj": 0, "fsm_silent": 0, "sess_opened": 0,
          "max_options_in_request": 0, "panic_or_hang": 0}
     for c, o in zip(cases, impl):
@@ -749,4 +790,6 @@ def distribution(cases, impl):
         else:
             d["sess_opened"] += "up=1" in o
             d["sess_reauth"] += " R" in c
+            d["sess_alloc"] += ("/" in c and "/none" not in c.split()[1]) or "/0a" in c
+            d["sess_conflict"] += "/cf" in c
     return d
